@@ -442,8 +442,9 @@ func (e *env) runStep(x *cl, st step, old *[][]byte) stepObs {
 		if o.delivered != nil {
 			e.down.WriteToUDP(o.delivered, caddr)
 		}
-		if !o.intact && act != actTimeout {
-			// end the client's wait: it gives up after the second datagram it cannot use
+		if act != actTimeout {
+			// end the client's wait whatever it thinks of what it got: it gives up after the
+			// second datagram it cannot use; a reply delivered before these is processed first
 			e.down.WriteToUDP(junk(), caddr)
 			e.down.WriteToUDP(junk(), caddr)
 		}
@@ -569,8 +570,15 @@ func childMain() {
 		if line != "" {
 			fmt.Fprintf(out, "BEGIN\t%d\n", i)
 			out.Flush()
-			t, a, o := e.runHist(parseScript(line))
-			fmt.Fprintf(out, "CASE\t%s\t%s\t%s\n", t, a, o)
+			kind, args, _ := strings.Cut(line, "\t")
+			var t, a, o string
+			switch kind {
+			case "c11.hist":
+				t, a, o = e.runHist(parseScript(args))
+			case "c11.srv":
+				t, a, o = e.runSrv(args)
+			}
+			fmt.Fprintf(out, "CASE\t%s\t%s\t%s\t%s\n", kind, t, a, o)
 			out.Flush()
 		}
 		if err != nil {
@@ -582,12 +590,21 @@ func childMain() {
 // runHistories runs the scripts in child processes (a panic in a listener or
 // client goroutine ends the process): a history during which the child died is
 // recorded as crashed and the rest continues in a new child.
-func runHistories(w *lib.Writer, scripts [][]step) {
+type job struct{ kind, args string }
+
+func histJobs(scripts [][]step) (js []job) {
+	for _, s := range scripts {
+		js = append(js, job{"c11.hist", scriptString(s)})
+	}
+	return js
+}
+
+func runHistories(w *lib.Writer, scripts []job) {
 	for len(scripts) > 0 {
 		cmd := exec.Command(os.Args[0], "-child")
 		var sb strings.Builder
 		for _, s := range scripts {
-			sb.WriteString(scriptString(s))
+			sb.WriteString(s.kind + "\t" + s.args)
 			sb.WriteString("\n")
 		}
 		cmd.Stdin = strings.NewReader(sb.String())
@@ -603,12 +620,12 @@ func runHistories(w *lib.Writer, scripts [][]step) {
 		sc.Buffer(make([]byte, 1<<20), 1<<28)
 		cur, done := -1, 0
 		for sc.Scan() {
-			p := strings.SplitN(sc.Text(), "\t", 4)
+			p := strings.SplitN(sc.Text(), "\t", 5)
 			switch p[0] {
 			case "BEGIN":
 				cur = int(lib.ParseI(p[1]))
 			case "CASE":
-				w.Case("c11.hist", p[1], p[2], p[3])
+				w.Case(p[1], p[2], p[3], p[4])
 				done = cur + 1
 				cur = -1
 			}
@@ -616,7 +633,7 @@ func runHistories(w *lib.Writer, scripts [][]step) {
 		err = cmd.Wait()
 		if cur >= 0 {
 			// the process died during history cur
-			w.Case("c11.hist", "crashed", scriptString(scripts[cur]), lib.L("99"))
+			w.Case(scripts[cur].kind, "crashed", scripts[cur].args, lib.L("99"))
 			scripts = scripts[cur+1:]
 			continue
 		}
@@ -645,11 +662,13 @@ func main() {
 	w := lib.NewWriter(a.Out)
 	defer w.Close()
 	if a.Replay != "" {
-		var scripts [][]step
+		var scripts []job
 		for _, l := range lib.ReplayLines(a.Replay) {
 			switch l[0] {
-			case "c11.hist":
-				scripts = append(scripts, parseScript(l[2]))
+			case "c11.hist", "c11.srv":
+				scripts = append(scripts, job{l[0], l[2]})
+			case "c11.store":
+				runStore(w, parseBL(l[2]), l[1])
 			case "c11.req":
 				runReq(w, parseReq(l[2]), l[1])
 			case "c11.resp":
@@ -664,5 +683,7 @@ func main() {
 	r := lib.NewRng(a.Seed)
 	runConst(w)
 	genFunctional(w, r.Fork(), a.Tier)
-	runHistories(w, genHistories(r.Fork(), a.Tier))
+	js := genSrv(r.Fork(), a.Tier)
+	js = append(js, histJobs(genHistories(r.Fork(), a.Tier))...)
+	runHistories(w, js)
 }
